@@ -448,6 +448,12 @@ pub fn run(ctx: &mut Ctx) {
     ctx.campaign("long", CampaignCfg::new(t.pick(3_000, 60_000)).shards(16), || strategy(150), run_case);
     ctx.campaign("keep-alive-real-time", CampaignCfg::new(t.pick(1_600, 40_000)).shards(16).shrink_iters(200), || rt_strategy(16), run_case_rt);
     ctx.campaign("slow-protocol", CampaignCfg::new(t.pick(160, 3_000)).shards(16), super::c08_slow::strategy, super::c08_slow::run_case);
+    // the remote ends the connection by breaking the rules of the multiplexer (see c07_rogue): the substream events of its
+    // streams lie inside the connection, and established / closed are reported once
+    let avoid_credit = ctx.avoid(super::c07_rogue::SIG_YAMUX_CREDIT);
+    ctx.campaign("rogue-yamux", CampaignCfg::new(t.pick(1_000, 20_000)).shards(16).shrink_iters(8), super::c07_rogue::strategy, move |c: &super::c07_rogue::Case| {
+        super::c07_rogue::run_case_for(c, avoid_credit, "C08")
+    });
     ctx.campaign("real-opens", CampaignCfg::new(t.pick(480, 10_000)).shards(16).shrink_iters(6), super::c08_nodes::strategy, super::c08_nodes::run_case);
     let _ = fail_marker;
 }
